@@ -71,6 +71,7 @@ func scenarioShutdown(w *world) {
 	st := map[*xferDir]*dirState{}
 	x.onRead = func(d *xferDir, r *readRec) { checkRead(w, st, d, r) }
 	w.net.faultsOn = true
+	x.pokes = w.wtape.intn(2) == 0
 	x.start()
 
 	// systematic leg: {initiating side} x {one-sided, crossed at once, crossed 5 ms later} x every placement of at most k
